@@ -9,6 +9,7 @@ run (both are evaluated on all cases).
 
 formats : ('U',n) ('Const',n,c) ('Fix',n) ('Rest',lo,hi|None) ('Seq',f,g)
           ('Bounded',ll,f) ('Rep',f) ('Opt',f) ('Tag',n,selector)     selector: int -> fmt
+          ('Check',name,f)  f restricted to values satisfying PRED[name] (same predicate as Coq's FCheck)
 values  : int | bytes | (a,b) | [v,...] | None / Some(v) | Tagged(t,v)
 """
 
@@ -63,6 +64,29 @@ def Bounded(ll, f): return ('Bounded', ll, f)
 def Rep(f): return ('Rep', f)
 def Opt(f): return ('Opt', f)
 def Tag(n, sel): return ('Tag', n, sel)
+
+
+def Check(name, f): return ('Check', name, f)
+
+
+def uniq_tags(v):
+    """Coq: uniq_tags -- no two elements of the list carry the same tag"""
+    ts = [e.t for e in v if isinstance(e, Tagged)]
+    return len(set(ts)) == len(ts)
+
+
+def fix_uniq_tags(v):
+    seen, out = set(), []
+    for e in v:
+        if not isinstance(e, Tagged) or e.t not in seen:
+            out.append(e)
+            if isinstance(e, Tagged):
+                seen.add(e.t)
+    return out
+
+
+PRED = {'uniq_tags': uniq_tags}          # the domain predicates (mirrors of Model/C15_Fmt.v)
+REPAIR = {'uniq_tags': fix_uniq_tags}    # how the generator brings a drawn value into the domain
 
 
 BYTES = Rest(0, None)
@@ -189,6 +213,10 @@ def enc(f, v, marks=None, base=0):
         if not isinstance(v, Some):
             raise NoFit('shape')
         return enc(f[1], v.v, marks, base)
+    if k == 'Check':
+        if not PRED[f[1]](v):
+            raise NoFit('outside the domain: ' + f[1])
+        return enc(f[2], v, marks, base)
     if k == 'Tag':
         if not isinstance(v, Tagged):
             raise NoFit('shape')
@@ -265,6 +293,11 @@ def dec(f, bs):
             return None, b''
         v, r = dec(f[1], bs)
         return Some(v), r
+    if k == 'Check':
+        v, r = dec(f[2], bs)
+        if not PRED[f[1]](v):
+            raise Reject('outside the domain: ' + f[1])
+        return v, r
     if k == 'Tag':
         a, r = take(f[1], bs)
         t = int.from_bytes(a, 'big')
